@@ -143,6 +143,12 @@ MAYBE = {  # kind -> (constructor, teal op, immediates, arg types, value type, m
     "AssetBalance": (lambda acct, asset: pt.AssetHolding.balance(acct, asset), "asset_holding_get", ["AssetBalance"], [U, U], U, 2),
     "AssetTotal": (lambda asset: pt.AssetParam.total(asset), "asset_params_get", ["AssetTotal"], [U], U, 2),
 }
+MULTI = {  # kind -> (Op, teal op, arg types, output types, min version): MultiValue built directly, n outputs
+    "AddW": (pt.Op.addw, "addw", [U, U], [U, U], 2),
+    "MulW": (pt.Op.mulw, "mulw", [U, U], [U, U], 3),
+    "ExpW": (pt.Op.expw, "expw", [U, U], [U, U], 4),
+    "DivModW": (pt.Op.divmodw, "divmodw", [U, U, U, U], [U, U, U, U], 4),
+}
 ITXN_FIELDS = {  # field -> (TxnField, type)
     "TypeEnum": (pt.TxnField.type_enum, U), "Amount": (pt.TxnField.amount, U), "Fee": (pt.TxnField.fee, U),
     "Receiver": (pt.TxnField.receiver, B), "Note": (pt.TxnField.note, B), "AssetAmount": (pt.TxnField.asset_amount, U),
@@ -323,6 +329,11 @@ class SexpRenderer:
             kind, args, val_v, ok_v, body = n[1], n[2], n[3], n[4], n[5]
             teal, imms = MAYBE[kind][1], MAYBE[kind][2]
             mv = atoms(["multi", teal, atoms(imms), atoms([self.e(a) for a in args]), atoms([str(val_v.key), str(ok_v.key)])])
+            return atoms(["seq", mv, self.e(body)])
+        if t == "multi":
+            # MultiValue with n outputs: Seq(op storing its n results into n variables, <statement using them>)
+            kind, args, outs, body = n[1], n[2], n[3], n[4]
+            mv = atoms(["multi", MULTI[kind][1], "()", atoms([self.e(a) for a in args]), atoms([str(v.key) for v in outs])])
             return atoms(["seq", mv, self.e(body)])
         if t == "comment":
             return "(note)" if n[2] is None else f"(note {self.e(n[2])})"
@@ -588,6 +599,13 @@ class Builder:
             # the MaybeValue's output slots are the model's two variables
             self.vars[val_v.uid] = _SlotView(mv.output_slots[0], mv.types[0])
             self.vars[ok_v.uid] = _SlotView(mv.output_slots[1], mv.types[1])
+            return pt.Seq(mv, self.e(body))
+        if t == "multi":
+            kind, args, outs, body = n[1], n[2], n[3], n[4]
+            op, _teal, _argt, outt, _minv = MULTI[kind]
+            mv = pt.MultiValue(op, [TT[x] for x in outt], args=[self.e(a) for a in args])
+            for i, v in enumerate(outs):
+                self.vars[v.uid] = _SlotView(mv.output_slots[i], mv.types[i])
             return pt.Seq(mv, self.e(body))
         if t == "comment":
             return pt.Comment(n[1]) if n[2] is None else pt.Comment(n[1], self.e(n[2]))
